@@ -92,7 +92,7 @@ class Anchors:
 
 
 # ---- Validation typestate -------------------------------------------------------------------
-DEFAULTS = dict(created=True, validate_exp=True, validate_nbf=False, validate_aud=True, leeway=60,
+DEFAULTS = dict(env={}, created=True, validate_exp=True, validate_nbf=False, validate_aud=True, leeway=60,
                 reject_tokens_expiring_in_less_than=0, required={"exp"}, sig=True, aud=None, unknown=[])
 
 
@@ -100,7 +100,43 @@ def _copy(st):
     d = dict(st)
     d["required"] = set(st["required"]) if isinstance(st["required"], set) else st["required"]
     d["unknown"] = list(st["unknown"])
+    d["env"] = dict(st.get("env") or {})
     return d
+
+
+def helper_pruned_edges(callee, call):
+    """edges of callee contradicted by the shape of the caller's arguments (Option::Some / None aggregates, bool constants)"""
+    known = {}
+    for i, k in enumerate(call.kids):
+        p = peel(k)
+        if p.kind == "agg" and p.d["agg"].get("adt") == common.OPTION:
+            known[i + 1] = (p.d["agg"].get("variant") == "Some")
+        elif isinstance(const_value(p), bool):
+            known[i + 1] = const_value(p)
+    if not known:
+        return set()
+    rem = set()
+    for (b, subj) in common.discr_switches(callee):
+        s = peel(subj)
+        if s.kind == "param" and s.d["idx"] in known and (callee.local_ty(s.d["idx"]) or "").startswith("std::option::Option"):
+            want = 1 if known[s.d["idx"]] else 0
+            t = callee.term(b)
+            listed = set(x for (x, _) in t["targets"])
+            for (x, tgt) in t["targets"]:
+                if x != want:
+                    rem.add((b, tgt))
+            if want in listed:
+                rem.add((b, t["otherwise"]))
+    for (b, tt, ft, c) in common.bool_switches(callee):
+        c0 = peel(c)
+        if c0.kind == "param" and c0.d["idx"] in known:
+            rem.add((b, ft if known[c0.d["idx"]] else tt))
+        if c.kind == "call" and c.kids and c.d["term"].get("name") in ("is_some", "is_none"):
+            s = peel(c.kids[0])
+            if s.kind == "param" and s.d["idx"] in known:
+                truth = known[s.d["idx"]] if c.d["term"]["name"] == "is_some" else (not known[s.d["idx"]])
+                rem.add((b, ft if truth else tt))
+    return rem
 
 
 def const_str_list(v):
@@ -144,10 +180,18 @@ def eval_validation(fx, v, depth=0):
         if t.get("name") == "default" and (t.get("self_ty") or "").endswith("jsonwebtoken::Validation"):
             return [_copy(DEFAULTS)]
         if t.get("resolved_local") and cn in fx.fns:
-            # crate-local helper returning a Validation: evaluate its return value
+            # crate-local helper returning a Validation: evaluate its return value on the CFG pruned by the
+            # caller's Some/None/bool arguments (A6), and remember how to map its parameters back
             callee = fx.fns[cn]
-            rv = vals(callee).return_value()
-            return eval_validation(fx, rv, depth + 1)
+            rem = helper_pruned_edges(callee, v)
+            from val import FnVals
+            rv = (FnVals(callee, rem) if rem else vals(callee)).return_value()
+            sts = eval_validation(fx, rv, depth + 1)
+            for st in sts:
+                st.setdefault("env", {})
+                st["env"] = dict(st["env"])
+                st["env"][callee.name] = v
+            return sts
     if v.kind == "withfield":
         sts = eval_validation(fx, v.kids[0], depth + 1)
         path = v.d["path"]
